@@ -40,6 +40,20 @@ def _setup():
     return amp, cmds, DeclaredError, UndeclaredError
 
 
+_QUIET = []
+
+
+def _quiet():
+    """the undeclared-error path logs a traceback; keep it off stderr"""
+    if not _QUIET:
+        from twisted.logger import globalLogBeginner
+        try:
+            globalLogBeginner.beginLoggingTo([lambda e: None], redirectStandardIO=False, discardBuffer=True)
+        except Exception:
+            pass
+        _QUIET.append(1)
+
+
 def impl(case) -> str:
     from twisted.internet import defer
     from twisted.internet.error import ConnectionDone
@@ -47,6 +61,7 @@ def impl(case) -> str:
     from twisted.python.failure import Failure as TFailure
 
     amp, cmds, DeclaredError, UndeclaredError = _setup()
+    _quiet()
     ev: list[str] = []
     pending: list = []          # [peer, Deferred, n] of responders that answer later
     rng = random.Random(case.get("chunks", 0))
@@ -56,43 +71,29 @@ def impl(case) -> str:
             def unhandledError(self, failure):      # where an error nobody consumed would be logged
                 ev.append(f"!unhandled@{me}:{failure.type.__name__}")
 
-        p = Peer()
+            @cmds["now"].responder
+            def r_now(self, n):
+                ev.append(f"I{me}:{n}")
+                return {"n": n}
 
-        def r_now(n):
-            ev.append(f"I{me}:{n}")
-            return {"n": n}
+            @cmds["later"].responder
+            def r_later(self, n):
+                ev.append(f"I{me}:{n}")
+                d = defer.Deferred()
+                pending.append([me, d, n])
+                return d
 
-        def r_later(n):
-            ev.append(f"I{me}:{n}")
-            d = defer.Deferred()
-            pending.append([me, d, n])
-            return d
+            @cmds["declared"].responder
+            def r_declared(self, n):
+                ev.append(f"I{me}:{n}")
+                raise DeclaredError("declared")
 
-        def r_declared(n):
-            ev.append(f"I{me}:{n}")
-            raise DeclaredError("declared")
+            @cmds["undeclared"].responder
+            def r_undeclared(self, n):
+                ev.append(f"I{me}:{n}")
+                raise UndeclaredError("undeclared")
 
-        def r_undeclared(n):
-            ev.append(f"I{me}:{n}")
-            raise UndeclaredError("undeclared")
-
-        table = {b"now": r_now, b"later": r_later, b"declared": r_declared, b"undeclared": r_undeclared}
-
-        def locate(name):
-            if name not in table:
-                return None
-            cmd = cmds[name.decode()]
-            return lambda box: cmd.responder(table[name])(box) if False else _wrap(cmd, table[name])(box)
-
-        p.locateResponder = locate
-        return p
-
-    def _wrap(cmd, f):
-        # what CommandLocator._wrapWithSerialization does: parse arguments, call, serialise the response
-        def doit(box):
-            kw = cmd.parseArguments(box, None)
-            return defer.maybeDeferred(f, **kw).addCallback(lambda r: cmd.makeResponse(r, None))
-        return doit
+        return Peer()
 
     class Tr(StringTransport):
         closing = False
@@ -309,10 +310,10 @@ def gen(rng, tier):
         for word in itertools.product(range(len(alpha)), repeat=n):
             if tier == "quick" and n == depth and rng.random() > 0.5:
                 continue
-            if tier != "quick" and n == depth and rng.random() > 0.25:
+            if tier != "quick" and n == depth and rng.random() > 0.03:
                 continue
             cases.append({"ops": [alpha[i] for i in word], "chunks": rng.randrange(1 << 30)})
-    for _ in range(700 if tier == "quick" else 40000):
+    for _ in range(500 if tier == "quick" else 4000):
         ops = []
         fatal = rng.random() < 0.35
         for _ in range(rng.randrange(5, 50)):
@@ -369,7 +370,7 @@ SPEC = Spec(
     to_coq=to_coq,
     nontrivial=lambda c, o: "C" in o and ("I" in o or "X" in o),
     histogram=lambda c, o: ("lost" if " |up=F" in o else "up") + (":fatal" if "UnknownRemoteError" in o else ""),
-    rule="every history of length <= 3 (quick, half of length 3) / <= 5 (thorough, a quarter of length 5) over an "
+    rule="every history of length <= 3 (quick, half of length 3) / <= 5 (thorough, 3% of length 5) over an "
          "11-letter alphabet (calls of each responder kind from either peer, deliver one box in either direction, fire the "
          "oldest pending responder with success / undeclared error, connection loss in the middle of the next box), plus "
          "random histories of 5-50 ops (deliveries of 1-7 boxes, responders fired out of order, loss at 0/0.1/50/99.9% of "
